@@ -657,6 +657,9 @@ def main(tier):
     _extra = execlib.independence(ck, 'c02', 'shipped', [(f, _Z, _X) for f in ('CS_Photo', 'CS_Rayl', 'CS_Compt', 'CS_Energy', 'FF_Rayl', 'SF_Compt', 'Fi', 'Fii', 'ComptonProfile')] +
                                   [('ComptonProfile_Partial', _Z2, _S2, _P2)])
     st['calls'] += _extra
+    # ... and the tables are those of data/*.dat whatever else lies in the tree: project build in a tree with the leftovers of an earlier build
+    st['calls_in_the_build_of_a_dirty_tree'] = execlib.dirty_tree(ck, 'c02', 'shipped', [(f, _Z[::3], _X[::3]) for f in ('CS_Photo', 'CS_Rayl', 'CS_Compt', 'CS_Energy', 'FF_Rayl', 'SF_Compt', 'Fi', 'Fii', 'ComptonProfile')])
+    st['calls'] += st['calls_in_the_build_of_a_dirty_tree']
     cov = dict(evaluations=st['calls'], distinct_nontrivial=distinct,
                rule='every table of CS_Photo/Rayl/Compt/Energy, FF_Rayl, SF_Compt, Fi, Fii, ComptonProfile(_Partial) and (regenerated Kissel '
                     'configuration) CSb_/CS_Photo_Partial: every knot, every interval at fractions %r plus one seeded random fraction, first/last two intervals at %r, both ends '
@@ -667,7 +670,7 @@ def main(tier):
                     % (tuple(fracs), FR_ALL),
                samples=st['samples'][:40], values_compared=st['compared'], intervals_compared=anyiv,
                failures_expected_and_observed=st['errors_expected_and_seen'], no_table_failures_observed=st['nodata_failures_confirmed'],
-               kissel_extension_values_compared=st['extension_compared'], kissel_total_values_compared=st['total_compared'],
+               calls_in_the_build_of_a_dirty_tree=st['calls_in_the_build_of_a_dirty_tree'], kissel_extension_values_compared=st['extension_compared'], kissel_total_values_compared=st['total_compared'],
                kissel_probes_below_edge_inside_table=st['kissel_below_edge_inside_table'],
                kissel_probes_on_tables_without_edge_energy=st['kissel_edge_unknown_probes'],
                interior_probes_dropped_by_rounding=st['dropped_interior'], probes_skipped_hull_or_degenerate=st['skipped_hull_or_degenerate'],
